@@ -73,8 +73,12 @@ Lemma cready_set_to_wait : forall s t ws, cready s = true -> cready (set_to_wait
 Proof. intros; unfold set_to_wait; repeat des_if; auto. apply cready_change_st; assumption. Qed.
 Lemma cready_try_undo : forall s t, cready s = true -> cready (try_undo s t) = true.
 Proof. intros; unfold try_undo; des_if; auto using cready_set_status. Qed.
+Lemma cready_set_status_quiet : forall s t nw, cready (set_status_quiet s t nw) = cready s.
+Proof. intros; unfold set_status_quiet, with_tasks; des_if; reflexivity. Qed.
+Lemma cready_ready_detect : forall s, cready s = true -> cready (ready_detect s) = true.
+Proof. intros s H; unfold ready_detect; rewrite H; des_if; [assumption | exact H]. Qed.
 Lemma cready_abort_write : forall s t, cready s = true -> cready (abort_write s t) = true.
-Proof. intros; unfold abort_write; destruct (eff_status (get s t)); auto using cready_set_status. Qed.
+Proof. intros; unfold abort_write; destruct (eff_status (get s t)); rewrite ?cready_set_status_quiet; auto. Qed.
 Lemma cready_abort_lanes : forall d kill al seen s, cready s = true -> cready (abort_lanes d kill al seen s) = true.
 Proof. intros; apply (abort_lanes_P (fun x => cready x = true)); auto using cready_abort_write. Qed.
 Lemma cready_abort_tasks : forall d wl al seen s, cready s = true -> cready (abort_tasks d wl al seen s) = true.
@@ -98,7 +102,7 @@ Proof.
   assert (H0 : cready (remove_running s t) = true) by exact H.
   destruct o.
   - destruct (st (remove_running s t) t); auto using cready_set_status.
-  - apply cready_set_status. unfold abort_lanes_top. apply cready_abort_lanes; assumption.
+  - apply cready_set_status. unfold abort_lanes_top. apply cready_ready_detect, cready_abort_lanes; assumption.
   - repeat des_if; auto using cready_try_undo.
   - repeat des_if; auto using cready_try_undo, cready_set_to_wait.
 Qed.
@@ -108,7 +112,7 @@ Proof.
   intros s e H; destruct e; simpl.
   - apply cready_ensure_pass; assumption.
   - apply cready_finish; assumption.
-  - des_if; [assumption|]. unfold abort_change; apply cready_abort_tasks; assumption.
+  - des_if; [assumption|]. unfold abort_change; apply cready_ready_detect, cready_abort_tasks; assumption.
   - assumption.
   - des_if; [assumption|]. unfold resolve_wait; des_if; auto using cready_set_status.
 Qed.
@@ -145,6 +149,17 @@ Lemma st_set_status : forall s t nw u,
   st (set_status s t nw) u = st s u \/ (u = t /\ st (set_status s t nw) u = nw).
 Proof. intros; unfold set_status; repeat des_if; auto using st_change_st. Qed.
 
+Lemma st_set_status_quiet : forall s t nw u,
+  st (set_status_quiet s t nw) u = st s u \/ (u = t /\ st (set_status_quiet s t nw) u = nw).
+Proof.
+  intros; unfold set_status_quiet. des_if; [left; reflexivity|].
+  destruct (st_with_tasks_upd s t (fun tk => set_st tk nw) u) as [A|[A [B C]]]; [left; assumption|].
+  right; split; [assumption | rewrite C; reflexivity].
+Qed.
+
+Lemma st_ready_detect : forall s u, st (ready_detect s) u = st s u.
+Proof. intros; unfold ready_detect, with_cready, with_panicked; repeat des_if; reflexivity. Qed.
+
 Lemma amap_refl : forall a, abort_map_ok a a = true.
 Proof. destruct a; reflexivity. Qed.
 Lemma amap_trans : forall a b c, abort_map_ok a b = true -> abort_map_ok b c = true -> abort_map_ok a c = true.
@@ -157,13 +172,13 @@ Proof.
   - apply seqb_eq in Ew.
     destruct (t_waited (get s t));
       try apply amap_refl;
-      match goal with |- context [set_status s t ?nw] =>
-        destruct (st_set_status s t nw u) as [A|[A B]]; [rewrite A; apply amap_refl | subst u; rewrite B; unfold st; rewrite Ew; reflexivity]
+      match goal with |- context [set_status_quiet s t ?nw] =>
+        destruct (st_set_status_quiet s t nw u) as [A|[A B]]; [rewrite A; apply amap_refl | subst u; rewrite B; unfold st; rewrite Ew; reflexivity]
       end.
   - destruct (t_st (get s t)) eqn:Es;
       try apply amap_refl;
-      match goal with |- context [set_status s t ?nw] =>
-        destruct (st_set_status s t nw u) as [A|[A B]]; [rewrite A; apply amap_refl | subst u; rewrite B; unfold st; rewrite Es; reflexivity]
+      match goal with |- context [set_status_quiet s t ?nw] =>
+        destruct (st_set_status_quiet s t nw u) as [A|[A B]]; [rewrite A; apply amap_refl | subst u; rewrite B; unfold st; rewrite Es; reflexivity]
       end.
 Qed.
 
@@ -178,7 +193,7 @@ Qed.
 
 Theorem abort_change_mapping : forall s u, abort_map_ok (st s u) (st (abort_change s) u) = true.
 Proof.
-  intros. unfold abort_change.
+  intros. unfold abort_change. rewrite st_ready_detect.
   apply (abort_tasks_P (fun x => abort_map_ok (st s u) (st x u) = true)); auto using amap_refl.
   intros s0 t H. eapply amap_trans; [exact H | apply abort_write_amap].
 Qed.
@@ -192,31 +207,24 @@ Proof.
   intros s t u Hp Hr Hn. unfold finish. rewrite Hp, Hr; simpl.
   destruct (st_set_status (abort_lanes_top (remove_running s t) (lanes_of (get (remove_running s t) t))) t Error u)
     as [A|[A _]]; [|congruence].
-  rewrite A. unfold abort_lanes_top.
+  rewrite A. unfold abort_lanes_top. rewrite st_ready_detect.
   change (st s u) with (st (remove_running s t) u). apply abort_lanes_mapping.
 Qed.
 
-(* ------------------------------------------------------------------ finding 11 and its neighbours (witnesses) *)
+(* ------------------------------------------------------------------ finding 11 (repaired by d3068df): witnesses *)
 Definition f11_graph : list tdesc := [([], [1; 2], true); ([], [], true); ([], [], true)].
 Definition f11_prefix : list event := [Ensure [0; 1; 2]; Finish 1 OOk; Finish 2 OOk].
 
-(* tasks [C:Do, A:Done, B:Done], change not ready: Change.Abort panics, leaving C on Hold, A in Undo, B Done and
-   the change marked ready *)
+(* tasks [C:Do, A:Done, B:Done], change not ready: Change.Abort aborts everything, does not panic and leaves the
+   change unready (before the repair: panic, change marked ready, statuses [Hold; Undo; Done]) *)
 Lemma f11_witness :
   let s := run_events (init_state f11_graph) f11_prefix in
   map t_st (tasks s) = [Do; Done; Done] /\ cready s = false /\ panicked s = false /\
-  panicked (step s UAbort) = true /\ cready (step s UAbort) = true /\
-  map t_st (tasks (step s UAbort)) = [Hold; Undo; Done].
+  panicked (step s UAbort) = false /\ cready (step s UAbort) = false /\
+  map t_st (tasks (step s UAbort)) = [Hold; Undo; Undo].
 Proof. vm_compute. repeat split; reflexivity. Qed.
 
-(* the repaired Abort on the same state: no panic, everything aborted, change still unready *)
-Lemma f11_fixed_witness :
-  let s := run_events (init_state f11_graph) f11_prefix in
-  panicked (abort_change_fixed s) = false /\ cready (abort_change_fixed s) = false /\
-  map t_st (tasks (abort_change_fixed s)) = [Hold; Undo; Undo].
-Proof. vm_compute. repeat split; reflexivity. Qed.
-
-(* the guard of the REST API is necessary: aborting a READY change whose tasks are Done panics as well *)
+(* the guard of the REST API is necessary: aborting a READY change whose tasks are Done still panics *)
 Lemma abort_ready_witness :
   let s := run_events (init_state [([], [], true)]) [Ensure [0]; Finish 0 OOk] in
   cready s = true /\ panicked s = false /\ panicked (step s UAbort) = true.
